@@ -278,6 +278,19 @@ class Cx:
                 self.samples.append(dict(label=label, verdict=r, smt2=txt))
         self.records.append(rec)
 
+    def assume_denominators_nonzero(self, note):
+        """turn the recorded division obligations into stated preconditions (used where the
+        property is not about finiteness and the formula has documented poles)"""
+        if not self.sym:
+            return
+        from symnum.core import ENGINE
+        obs, ENGINE.obligations = ENGINE.obligations, []
+        for kind, cond, n, pc in obs:
+            ENGINE.assumptions.append(cond)
+            ENGINE.pinned.append(cond)
+        if note not in self.notes:
+            self.notes.append(note)
+
     # ---- exceptions as outcomes ---------------------------------------
     def check_div_obligations(self, label="div"):
         """decide the side obligations (denominator != 0, sqrt/log domain) recorded so far"""
